@@ -31,6 +31,7 @@ def plan(tier, seed):
     jobs = F.plan_jobs(tier, seed, "C05", quick_jobs=32, thorough_jobs=600,
                        nmax=8)
     from vf import rig_explore
+    jobs.append({"kind": "nonstaircase", "hashseed": 0, "seed": seed})
     return jobs + rig_explore.plan(tier, seed)
 
 
@@ -75,7 +76,66 @@ def _nontrivial(rig, spec, mons):
                                        spec["workers"] >= 2)
 
 
+def _nonstaircase(job, scratch):
+    """Known finding C05-F25, probed directly: a live path whose weight is
+    zero in a wire-fencing ensemble *below* an ensemble where it is non-zero
+    (its trajectory jumped over the whole band [lambda_i, cap)).  A perfect
+    matching exists, so by the property a job can be drawn; the program's P
+    calculation assumes staircase rows."""
+    import itertools
+    import numpy as np
+    from vf.checks.c02 import _mk_state, _matrix
+    from vf.oracles.permanent import p_matrix
+    res = {"n": 0, "sigs": [], "events": {}, "violations": [], "samples": [],
+           "reached": {}, "notes": []}
+    for n in (3, 4):
+        st = _mk_state(n)
+        rows0 = [[1.0 if j <= i else 0.0 for j in range(n)] for i in range(n)]
+        for i, hole in itertools.product(range(1, n), range(0, n - 1)):
+            if hole >= i:
+                continue
+            rows = [list(r) for r in rows0]
+            rows[i][hole] = 0.0       # jumped over band `hole`, valid above
+            if hole > 0:
+                rows[i][hole] = 0.0
+            w = _matrix(n, rows)
+            locks = np.zeros(n + 2)
+            locks[-1] = 1
+            idle = np.where(locks == 0)[0]
+            ref, tot = p_matrix(w[np.ix_(idle, idle)].tolist())
+            if ref is None:
+                continue
+            res["n"] += 1
+            res["reached"]["nonstaircase_probe"] = \
+                res["reached"].get("nonstaircase_probe", 0) + 1
+            bad = None
+            try:
+                out = np.asarray(st.inf_retis(w.copy(), locks.copy()),
+                                 dtype=float)[np.ix_(idle, idle)]
+                if not np.all(np.isfinite(out)) or \
+                        not (np.max(np.abs(out - np.array(ref, dtype=float)))
+                             <= 1e-9):
+                    bad = "P differs from the permanent ratios"
+            except BaseException as exc:
+                bad = f"inf_retis raised {type(exc).__name__}"
+            key = "nonstaircase_" + ("ok" if bad is None else "fails")
+            res["events"][key] = res["events"].get(key, 0) + 1
+            res["sigs"].append(f"ns-{n}-{i}-{hole}")
+            if bad:
+                res["violations"].append({
+                    "mech": "P-fails-on-non-staircase-weights",
+                    "where": "REPEX_state.inf_retis",
+                    "what": f"{bad} for a weight matrix with a perfect "
+                            "matching whose row has a zero below a non-zero "
+                            "entry", "W": w.tolist()})
+            if len(res["samples"]) < 1:
+                res["samples"].append({"nonstaircase_W": w.tolist()})
+    return res
+
+
 def work(job, scratch):
+    if job["kind"] == "nonstaircase":
+        return _nonstaircase(job, scratch)
     if job["kind"] == "explore":
         from vf import rig_explore
         return rig_explore.work(job, scratch, props=("C05",))
